@@ -13,6 +13,9 @@
 
 #include "schedule.h"
 #include "tasking_system_init.h"
+#ifdef RKCOMMON_VERIF
+#include "../verif/hooks.h"
+#endif
 
 namespace rkcommon {
   namespace tasking {
@@ -78,20 +81,47 @@ namespace rkcommon {
       loop                             = l;
 
       auto mainLoop = [l, fcn]() {
+#ifdef RKCOMMON_VERIF
+        verif::PointAtScopeExit verifLoopExit{"loop.exit", l.get()};
+#endif
         while (l->threadShouldBeAlive) {
           if (!l->threadShouldBeAlive)
             return;
+#ifdef RKCOMMON_VERIF
+          RKCOMMON_VERIF_POINT("loop.alive_checked", l.get());
+#endif
 
           if (l->shouldBeRunning) {
+#ifdef RKCOMMON_VERIF
+            RKCOMMON_VERIF_POINT("loop.running_checked", l.get());
+#endif
             l->insideLoopBody = true;
+#ifdef RKCOMMON_VERIF
+            RKCOMMON_VERIF_POINT("loop.inside_published", l.get());
+#endif
             fcn();
+#ifdef RKCOMMON_VERIF
+            RKCOMMON_VERIF_POINT("loop.body_done", l.get());
+#endif
             l->insideLoopBody = false;
+#ifdef RKCOMMON_VERIF
+            RKCOMMON_VERIF_POINT("loop.inside_cleared", l.get());
+#endif
           } else {
+#ifdef RKCOMMON_VERIF
+            RKCOMMON_VERIF_POINT("loop.before_lock", l.get());
+#endif
             std::unique_lock<std::mutex> lock(l->runningMutex);
             l->runningCond.wait(lock, [&] {
+#ifdef RKCOMMON_VERIF
+              verif::PointAtScopeExit verifPred{"loop.pred_evaluated", l.get()};
+#endif
               return l->shouldBeRunning.load() ||
                      !l->threadShouldBeAlive.load();
             });
+#ifdef RKCOMMON_VERIF
+            RKCOMMON_VERIF_POINT("loop.wait_returned", l.get());
+#endif
           }
         }
       };
@@ -107,6 +137,9 @@ namespace rkcommon {
 
     inline AsyncLoop::~AsyncLoop()
     {
+#ifdef RKCOMMON_VERIF
+      RKCOMMON_VERIF_POINT("dtor.entry", loop.get());
+#endif
       // Note that the mutex here is still required even though these vars
       // are atomic, because we need to sync with the condition variable waiting
       // state on the async thread. Otherwise we might signal and the thread
@@ -115,37 +148,76 @@ namespace rkcommon {
         std::unique_lock<std::mutex> lock(loop->runningMutex);
         loop->threadShouldBeAlive = false;
         loop->shouldBeRunning     = false;
+#ifdef RKCOMMON_VERIF
+        RKCOMMON_VERIF_POINT("dtor.flags_cleared", loop.get());
+#endif
       }
+#ifdef RKCOMMON_VERIF
+      RKCOMMON_VERIF_POINT("dtor.unlocked", loop.get());
+#endif
       loop->runningCond.notify_one();
 
+#ifdef RKCOMMON_VERIF
+      RKCOMMON_VERIF_POINT("dtor.notified", loop.get());
+#endif
       if (backgroundThread.joinable()) {
         backgroundThread.join();
       }
+#ifdef RKCOMMON_VERIF
+      RKCOMMON_VERIF_POINT("dtor.exit", loop.get());
+#endif
     }
 
     inline void AsyncLoop::start()
     {
+#ifdef RKCOMMON_VERIF
+      RKCOMMON_VERIF_POINT("start.entry", loop.get());
+#endif
       if (!loop->shouldBeRunning) {
         // Note that the mutex here is still required even though these vars
         // are atomic, because we need to sync with the condition variable
         // waiting state on the async thread. Otherwise we might signal and the
         // thread will miss it, since it wasn't watching.
         {
+#ifdef RKCOMMON_VERIF
+          RKCOMMON_VERIF_POINT("start.before_lock", loop.get());
+#endif
           std::unique_lock<std::mutex> lock(loop->runningMutex);
           loop->shouldBeRunning = true;
+#ifdef RKCOMMON_VERIF
+          RKCOMMON_VERIF_POINT("start.flag_set", loop.get());
+#endif
         }
+#ifdef RKCOMMON_VERIF
+        RKCOMMON_VERIF_POINT("start.unlocked", loop.get());
+#endif
         loop->runningCond.notify_one();
       }
+#ifdef RKCOMMON_VERIF
+      RKCOMMON_VERIF_POINT("start.exit", loop.get());
+#endif
     }
 
     inline void AsyncLoop::stop()
     {
+#ifdef RKCOMMON_VERIF
+      RKCOMMON_VERIF_POINT("stop.entry", loop.get());
+#endif
       if (loop->shouldBeRunning) {
         loop->shouldBeRunning = false;
+#ifdef RKCOMMON_VERIF
+        RKCOMMON_VERIF_POINT("stop.flag_cleared", loop.get());
+#endif
         while (loop->insideLoopBody.load()) {
+#ifdef RKCOMMON_VERIF
+          RKCOMMON_VERIF_POINT("stop.spin", loop.get());
+#endif
           std::this_thread::yield();
         }
       }
+#ifdef RKCOMMON_VERIF
+      RKCOMMON_VERIF_POINT("stop.exit", loop.get());
+#endif
     }
 
   }  // namespace tasking
